@@ -155,13 +155,55 @@ func (m *monitors) edgeData(w *world, t cpTuple) {
 			m.fail("C08 published checkpoint of size %d: right-edge data tile uploaded by the log itself does not parse at entry %d", t.size, int(n)*256+i)
 			return
 		}
+		// the RFC 6962 leaf taken from the RAW bytes of the tile (not from the decoded entry re-encoded by
+		// the code under test): what a monitor reading this tile hashes
+		mtl, ok := rawMerkleLeaf(raw[:len(raw)-len(rest)])
 		raw = rest
 		h := leafHash(e.MerkleTreeLeaf())
+		if !ok || leafHash(mtl) != h {
+			m.fail("C08 published checkpoint of size %d: the bytes published at position %d of the right-edge data tile are not the canonical encoding of the leaf the signed tree commits to", t.size, int(n)*256+i)
+			return
+		}
 		if string(h[:]) != string(ho.data[32*i:32*i+32]) {
 			m.fail("C08 published checkpoint of size %d: the entry published at position %d is not the leaf the signed tree commits to", t.size, int(n)*256+i)
 			return
 		}
 	}
+}
+
+// rawLeafOffsets: offset of the CTExtensions length prefix and end of the extensions inside one raw
+// data-tile entry (timestamp, entry type, [issuer key hash,] certificate, extensions, ...), parsed
+// independently of the code under test
+func rawLeafOffsets(b []byte) (extOff, extEnd int, ok bool) {
+	if len(b) < 10 {
+		return 0, 0, false
+	}
+	p := 10
+	if b[8] == 0 && b[9] == 1 {
+		p += 32
+	}
+	if len(b) < p+3 {
+		return 0, 0, false
+	}
+	p += 3 + int(b[p])<<16 + int(b[p+1])<<8 + int(b[p+2])
+	if len(b) < p+2 {
+		return 0, 0, false
+	}
+	extOff = p
+	p += 2 + int(b[p])<<8 + int(b[p+1])
+	if len(b) < p {
+		return 0, 0, false
+	}
+	return extOff, p, true
+}
+
+// rawMerkleLeaf: MerkleTreeLeaf bytes of one data-tile entry, cut out of the raw entry bytes
+func rawMerkleLeaf(b []byte) ([]byte, bool) {
+	_, end, ok := rawLeafOffsets(b)
+	if !ok {
+		return nil, false
+	}
+	return append([]byte{0, 0}, b[:end]...), true
 }
 
 func newMonitors() *monitors { return &monitors{checks: map[string]int{}} }
